@@ -18,7 +18,7 @@ from harness import gbnf_common as G
 from harness.gbnf_check import check as py_check
 
 PROJECT = "gbnf"
-PROPS = ["Octave.Props.C12"]
+PROPS = ["Octave.Lemmas.GenFacts", "Octave.Props.C12"]
 F = "octave_mcp/core/gbnf_compiler.py"
 ANCHORS = [(F, "GBNFCompiler._sanitize_rule_name"), (F, "GBNFCompiler._escape_literal"), (F, "GBNFCompiler.compile_constraint"),
            (F, "GBNFCompiler._compile_required"), (F, "GBNFCompiler._compile_optional"), (F, "GBNFCompiler._compile_enum"),
@@ -307,7 +307,7 @@ def same_report(p, m):
         return False
     if not p["ok"]:
         return True
-    return all(sorted(p[k]) == sorted(m[k]) for k in ("defined", "refs", "duplicates", "undefined", "empty_alts")) and \
+    return all(sorted(set(p[k])) == sorted(set(m[k])) for k in ("refs", "duplicates", "undefined", "empty_alts")) and \
         p["root"] == m["root"] and p["wellformed"] == m["wellformed"] and p["defined"] == m["defined"]
 
 
